@@ -266,11 +266,111 @@ def fam_expectstr(agg, h, methods, all_expects):
                           method, ex, lcols, rcols, lkeys, rkeys, h, (L, R))
 
 
+def fam_namesake(agg, h, methods, all_expects):
+    """a key given as a VECTOR is that vector, whatever its name: here it carries the name of a table column that holds other
+    values (a detached handle after the column was replaced, a vector edited after the table was built from it, a derived key
+    that kept the name); also on a self-join, where the left key is such a namesake of the right key column"""
+    from serif import Vector, Table
+    keysets = [([1, 2, 2], [2, 1, 3]), ([1, 1, 2], [1, 2, 2]), ([3, None, 1], [None, 1, 1]), ([1, 2, 3], [1, 2, 3])]
+    for lk, rk in keysets:
+        lkeys, rkeys = [(x,) for x in lk], [(x,) for x in rk]
+        decoy_l = [(x * 7 % 5) if x is not None else 4 for x in reversed(lk)]
+        decoy_r = [(x * 3 % 4) if x is not None else 0 for x in reversed(rk)]
+        agg.states += 1; agg.nontrivial += 1
+        for how in ("replaced-column", "built-then-edited", "derived-keeps-name", "plain-named-vector"):
+            for method in methods:
+                for ex in (VALID if all_expects else ["many_to_many"]):
+                    # tables whose column 'k' holds DECOY values; the real keys travel in vectors named 'k'
+                    lcols = [("k", list(decoy_l)), ("lp", [100 + i for i in range(len(lk))])]
+                    rcols = [("k", list(decoy_r)), ("rp", [200 + i for i in range(len(rk))])]
+                    try:
+                        if how == "replaced-column":
+                            L = tbl([("k", list(lk)), lcols[1]]); R = tbl([("k", list(rk)), rcols[1]])
+                            lon, ron = L.k, R.k                      # handles on the old columns
+                            L.k = list(decoy_l); R.k = list(decoy_r)
+                        elif how == "built-then-edited":
+                            lon, ron = Vector(list(decoy_l), name="k"), Vector(list(decoy_r), name="k")
+                            L = Table([lon, Vector(lcols[1][1], name="lp")]); R = Table([ron, Vector(rcols[1][1], name="rp")])
+                            for i, x in enumerate(lk):
+                                lon[i] = x
+                            for i, x in enumerate(rk):
+                                ron[i] = x
+                        elif how == "derived-keeps-name":
+                            L, R = tbl(lcols), tbl(rcols)
+                            src_l, src_r = Vector(list(lk) + [0], name="k"), Vector(list(rk) + [0], name="k")
+                            lon, ron = src_l[0:len(lk)], src_r[0:len(rk)]
+                        else:
+                            L, R = tbl(lcols), tbl(rcols)
+                            lon, ron = Vector(list(lk), name="k"), Vector(list(rk), name="k")
+                    except Exception as e:
+                        agg.skipped["namesake-setup-refused-" + type(e).__name__] += 1
+                        continue
+                    if list(lon._underlying) != list(lk) or list(ron._underlying) != list(rk) or list(L["k"]._underlying) != decoy_l:
+                        agg.skipped["namesake-setup-not-reached"] += 1
+                        continue
+                    case = {"family": "key vector that carries a column's name", "how": how, "left_keys": lk, "right_keys": rk, "method": method, "expect": ex}
+                    judge(agg, f"{method}.namesake", case, lambda: getattr(L, method)(R, left_on=lon, right_on=ron, expect=ex),
+                          method, ex, lcols, rcols, lkeys, rkeys, h, (L, R))
+        # self-join: right key is the table's column 'id' (unique), left key a detached vector named 'id' with repeats
+        for method in methods:
+            for ex in VALID:
+                cols = [("id", [1, 2, 3, 4]), ("p", [10, 20, 30, 40])]
+                t = tbl(cols)
+                for how in ("detached-handle", "edited-copy"):
+                    if how == "detached-handle":
+                        t = tbl([("id", [1, 1, 2, 3]), cols[1]])
+                        k = t.id
+                        t.id = [1, 2, 3, 4]
+                    else:
+                        t = tbl(cols)
+                        k = t.id.copy()
+                        k[1] = 1; k[2] = 2; k[3] = 3
+                    lkeys2, rkeys2 = [(x,) for x in k._underlying], [(x,) for x in [1, 2, 3, 4]]
+                    case = {"family": "key vector that carries a column's name", "how": "self-join, left key " + how, "left_keys": list(k._underlying), "right_keys": [1, 2, 3, 4],
+                            "method": method, "expect": ex}
+                    judge(agg, f"{method}.namesake-self", case, lambda: getattr(t, method)(t, left_on=k, right_on="id", expect=ex),
+                          method, ex, cols, cols, lkeys2, rkeys2, h, (t,))
+
+
+def fam_dupkeys(agg, h, methods, all_expects):
+    """several DIFFERENT duplicated keys on the side that must be unique, of kinds that cannot be ordered against each other
+    (None and int, str and int in an object column, tuples differing in a None component): still SerifValueError, nothing else"""
+    cases = [
+        ("int", [None, None, 1, 1, 2]), ("int", [1, 1, None, None]), ("obj", ["a", "a", 1, 1, 2.5]), ("obj", [1, "1", 1, "1"]),
+        ("pair", [(1, None), (1, None), (1, "x"), (1, "x")]), ("pair", [(None, 1), (None, 1), (2, 1), (2, 1)]),
+    ]
+    for kind, dup in cases:
+        nk = 2 if kind == "pair" else 1
+        keys_dup = [k if nk == 2 else (k,) for k in dup]
+        uniq = []
+        for k in keys_dup:
+            if k not in uniq:
+                uniq.append(k)
+
+        def cols_of(keys, base, pname):
+            return [(f"k{j}", [k[j] for k in keys]) for j in range(nk)] + [(pname, [base + i for i in range(len(keys))])]
+        on = [f"k{j}" for j in range(nk)] if nk == 2 else "k0"
+        agg.states += 1; agg.nontrivial += 1
+        for method in methods:
+            for ex in VALID:
+                for dup_side in ("R", "L"):
+                    lkeys, rkeys = (uniq, keys_dup) if dup_side == "R" else (keys_dup, uniq)
+                    lcols, rcols = cols_of(lkeys, 100, "lp"), cols_of(rkeys, 200, "rp")
+                    case = {"family": "several different duplicated keys", "kind": kind, "duplicated_side": dup_side, "keys": [list(k) for k in keys_dup], "method": method, "expect": ex}
+                    try:
+                        L, R = tbl(lcols), tbl(rcols)
+                    except Exception:
+                        continue
+                    judge(agg, f"{method}.dupkeys", case, lambda: getattr(L, method)(R, left_on=on, right_on=on, expect=ex),
+                          method, ex, lcols, rcols, lkeys, rkeys, h, (L, R))
+
+
 class _S(str):
     pass
 
 
-FAMILIES = {"skew": fam_skew, "args": fam_args, "dupnames": fam_dupnames, "twice": fam_twice, "self": fam_self, "expectstr": fam_expectstr}
+FAMILIES = {"skew": fam_skew, "args": fam_args, "dupnames": fam_dupnames, "twice": fam_twice, "self": fam_self, "expectstr": fam_expectstr,
+            "namesake": fam_namesake, "dupkeys": fam_dupkeys}
 
 
 def run_extra_unit(unit, methods, all_expects=False):
